@@ -1,79 +1,115 @@
 // auto-generated: "lalrpop 0.23.1"
-// sha3: 6544aae65c6b6fd26d21bf080b930435f0e4354ae4dab1157a490caa5e7929dc
+// sha3: 8730fd8c4863cbeaded6695b489c6f455f21ecf894d707eab2c3e7e5072a7c47
 use crate::rt::*;
 #[allow(unused_extern_crates)]
-extern crate lalrpop_util as __lalrpop_util;
+extern crate lalrpop_util as ___lalrpop_util;
 #[allow(unused_imports)]
-use self::__lalrpop_util::state_machine as __state_machine;
+use self::___lalrpop_util::state_machine as ___state_machine;
 #[allow(unused_extern_crates)]
 extern crate alloc;
 
 #[rustfmt::skip]
 #[allow(explicit_outlives_requirements, non_snake_case, non_camel_case_types, unused_mut, unused_variables, unused_imports, unused_parens, clippy::needless_lifetimes, clippy::type_complexity, clippy::needless_return, clippy::too_many_arguments, clippy::match_single_binding, clippy::clone_on_copy, clippy::unit_arg)]
-mod __parse__S {
+mod ___parse_____symbols {
 
     use crate::rt::*;
     #[allow(unused_extern_crates)]
-    extern crate lalrpop_util as __lalrpop_util;
+    extern crate lalrpop_util as ___lalrpop_util;
     #[allow(unused_imports)]
-    use self::__lalrpop_util::state_machine as __state_machine;
+    use self::___lalrpop_util::state_machine as ___state_machine;
     #[allow(unused_extern_crates)]
     extern crate alloc;
-    use super::__ToTriple;
+    use super::___ToTriple;
     #[allow(dead_code)]
-    pub(crate) enum __Symbol<>
+    pub(crate) enum ___Symbol<>
      {
         Variant0(Tok),
         Variant1(i64),
         Variant2(Tree),
     }
-    const __ACTION: &[i8] = &[
+    const ___ACTION: &[i8] = &[
         // State 0
-        -3, -3, -3,
+        0, 0, 2, 0, 8,
         // State 1
-        6, 4, 5,
+        0, 0, 2, 0, 8,
         // State 2
-        0, 0, 0,
+        0, 0, 2, 0, 8,
         // State 3
-        -5, -5, -5,
+        0, 0, 2, 0, 8,
         // State 4
-        0, 0, 0,
+        -9, -9, 0, -9, 0,
         // State 5
-        -4, -4, -4,
+        3, 0, 0, 0, 0,
+        // State 6
+        -7, 4, 0, -7, 0,
+        // State 7
+        -4, -4, 0, -4, 0,
+        // State 8
+        3, 0, 0, 12, 0,
+        // State 9
+        -6, 4, 0, -6, 0,
+        // State 10
+        -8, -8, 0, -8, 0,
+        // State 11
+        -3, -3, 0, -3, 0,
     ];
-    fn __action(state: i8, integer: usize) -> i8 {
-        __ACTION[(state as usize) * 3 + integer]
+    fn ___action(state: i8, integer: usize) -> i8 {
+        ___ACTION[(state as usize) * 5 + integer]
     }
-    const __EOF_ACTION: &[i8] = &[
+    const ___EOF_ACTION: &[i8] = &[
         // State 0
         0,
         // State 1
         0,
         // State 2
-        -7,
+        0,
         // State 3
         0,
         // State 4
-        -6,
+        -9,
         // State 5
+        -5,
+        // State 6
+        -7,
+        // State 7
+        -4,
+        // State 8
         0,
+        // State 9
+        -6,
+        // State 10
+        -8,
+        // State 11
+        -3,
     ];
-    fn __goto(state: i8, nt: usize) -> i8 {
+    fn ___goto(state: i8, nt: usize) -> i8 {
         match nt {
-            2 => 1,
-            3 => 2,
+            2 => match state {
+                3 => 10,
+                _ => 4,
+            },
+            4 => match state {
+                1 => 8,
+                _ => 5,
+            },
+            5 => match state {
+                2 => 9,
+                _ => 6,
+            },
             _ => 0,
         }
     }
     #[allow(clippy::needless_raw_string_hashes)]
-    const __TERMINAL: &[&str] = &[
-        r###""a""###,
-        r###"",""###,
-        r###"";""###,
+    const ___TERMINAL: &[&str] = &[
+        r###""+""###,
+        r###""*""###,
+        r###""(""###,
+        r###"")""###,
+        r###""x""###,
     ];
-    fn __expected_tokens(__state: i8) -> alloc::vec::Vec<alloc::string::String> {
-        __TERMINAL.iter().enumerate().filter_map(|(index, terminal)| {
-            let next_state = __action(__state, index);
+    fn ___expected_tokens(___state: i8) -> alloc::vec::Vec<alloc::string::String> {
+        ___TERMINAL.iter().enumerate().filter_map(|(index, terminal)| {
+            let next_state = ___action(___state, index);
             if next_state == 0 {
                 None
             } else {
@@ -81,33 +117,33 @@ mod __parse__S {
             }
         }).collect()
     }
-    fn __expected_tokens_from_states<
+    fn ___expected_tokens_from_states<
     >(
-        __states: &[i8],
+        ___states: &[i8],
         _: core::marker::PhantomData<()>,
     ) -> alloc::vec::Vec<alloc::string::String>
     {
-        __TERMINAL.iter().enumerate().filter_map(|(index, terminal)| {
-            if __accepts(None, __states, Some(index), core::marker::PhantomData::<()>) {
+        ___TERMINAL.iter().enumerate().filter_map(|(index, terminal)| {
+            if ___accepts(None, ___states, Some(index), core::marker::PhantomData::<()>) {
                 Some(alloc::string::ToString::to_string(terminal))
             } else {
                 None
             }
         }).collect()
     }
-    struct __StateMachine<>
+    struct ___StateMachine<>
     where 
     {
-        __phantom: core::marker::PhantomData<()>,
+        ___phantom: core::marker::PhantomData<()>,
     }
-    impl<> __state_machine::ParserDefinition for __StateMachine<>
+    impl<> ___state_machine::ParserDefinition for ___StateMachine<>
     where 
     {
         type Location = i64;
         type Error = u64;
         type Token = Tok;
         type TokenIndex = usize;
-        type Symbol = __Symbol<>;
+        type Symbol = ___Symbol<>;
         type Success = Tree;
         type StateIndex = i8;
         type Action = i8;
@@ -126,39 +162,39 @@ mod __parse__S {
 
         #[inline]
         fn token_to_index(&self, token: &Self::Token) -> Option<usize> {
-            __token_to_integer(token, core::marker::PhantomData::<()>)
+            ___token_to_integer(token, core::marker::PhantomData::<()>)
         }
 
         #[inline]
         fn action(&self, state: i8, integer: usize) -> i8 {
-            __action(state, integer)
+            ___action(state, integer)
         }
 
         #[inline]
         fn error_action(&self, state: i8) -> i8 {
-            __action(state, 3 - 1)
+            ___action(state, 5 - 1)
         }
 
         #[inline]
         fn eof_action(&self, state: i8) -> i8 {
-            __EOF_ACTION[state as usize]
+            ___EOF_ACTION[state as usize]
         }
 
         #[inline]
         fn goto(&self, state: i8, nt: usize) -> i8 {
-            __goto(state, nt)
+            ___goto(state, nt)
         }
 
         fn token_to_symbol(&self, token_index: usize, token: Self::Token) -> Self::Symbol {
-            __token_to_symbol(token_index, token, core::marker::PhantomData::<()>)
+            ___token_to_symbol(token_index, token, core::marker::PhantomData::<()>)
         }
 
         fn expected_tokens(&self, state: i8) -> alloc::vec::Vec<alloc::string::String> {
-            __expected_tokens(state)
+            ___expected_tokens(state)
         }
 
         fn expected_tokens_from_states(&self, states: &[i8]) -> alloc::vec::Vec<alloc::string::String> {
-            __expected_tokens_from_states(states, core::marker::PhantomData::<()>)
+            ___expected_tokens_from_states(states, core::marker::PhantomData::<()>)
         }
 
         #[inline]
@@ -169,7 +205,7 @@ mod __parse__S {
         #[inline]
         fn error_recovery_symbol(
             &self,
-            recovery: __state_machine::ErrorRecovery<Self>,
+            recovery: ___state_machine::ErrorRecovery<Self>,
         ) -> Self::Symbol {
             panic!("error recovery not enabled for this grammar")
         }
@@ -179,9 +215,9 @@ mod __parse__S {
             action: i8,
             start_location: Option<&Self::Location>,
             states: &mut alloc::vec::Vec<i8>,
-            symbols: &mut alloc::vec::Vec<__state_machine::SymbolTriple<Self>>,
-        ) -> Option<__state_machine::ParseResult<Self>> {
-            __reduce(
+            symbols: &mut alloc::vec::Vec<___state_machine::SymbolTriple<Self>>,
+        ) -> Option<___state_machine::ParseResult<Self>> {
+            ___reduce(
                 action,
                 start_location,
                 states,
@@ -190,590 +226,768 @@ mod __parse__S {
             )
         }
 
-        fn simulate_reduce(&self, action: i8) -> __state_machine::SimulatedReduce<Self> {
-            __simulate_reduce(action, core::marker::PhantomData::<()>)
+        fn simulate_reduce(&self, action: i8) -> ___state_machine::SimulatedReduce<Self> {
+            ___simulate_reduce(action, core::marker::PhantomData::<()>)
         }
     }
-    fn __token_to_integer<
+    fn ___token_to_integer<
     >(
-        __token: &Tok,
+        ___token: &Tok,
         _: core::marker::PhantomData<()>,
     ) -> Option<usize>
     {
         #[warn(unused_variables)]
-        match __token {
+        match ___token {
             Tok('a', _, _, _) if true => Some(0),
             Tok('b', _, _, _) if true => Some(1),
             Tok('c', _, _, _) if true => Some(2),
+            Tok('d', _, _, _) if true => Some(3),
+            Tok('e', _, _, _) if true => Some(4),
             _ => None,
         }
     }
-    fn __token_to_symbol<
+    fn ___token_to_symbol<
     >(
-        __token_index: usize,
-        __token: Tok,
+        ___token_index: usize,
+        ___token: Tok,
         _: core::marker::PhantomData<()>,
-    ) -> __Symbol<>
+    ) -> ___Symbol<>
     {
-        #[allow(clippy::manual_range_patterns)]match __token_index {
-            0 | 1 | 2 => __Symbol::Variant0(__token),
+        #[allow(clippy::manual_range_patterns)]match ___token_index {
+            0 | 1 | 2 | 3 | 4 => ___Symbol::Variant0(___token),
             _ => unreachable!(),
         }
     }
-    fn __simulate_reduce<
+    fn ___simulate_reduce<
     >(
-        __reduce_index: i8,
+        ___reduce_index: i8,
         _: core::marker::PhantomData<()>,
-    ) -> __state_machine::SimulatedReduce<__StateMachine<>>
+    ) -> ___state_machine::SimulatedReduce<___StateMachine<>>
     {
-        match __reduce_index {
+        match ___reduce_index {
             0 => {
-                __state_machine::SimulatedReduce::Reduce {
+                ___state_machine::SimulatedReduce::Reduce {
                     states_to_pop: 0,
                     nonterminal_produced: 0,
                 }
             }
             1 => {
-                __state_machine::SimulatedReduce::Reduce {
+                ___state_machine::SimulatedReduce::Reduce {
                     states_to_pop: 0,
                     nonterminal_produced: 1,
                 }
             }
             2 => {
-                __state_machine::SimulatedReduce::Reduce {
-                    states_to_pop: 0,
+                ___state_machine::SimulatedReduce::Reduce {
+                    states_to_pop: 3,
                     nonterminal_produced: 2,
                 }
             }
             3 => {
-                __state_machine::SimulatedReduce::Reduce {
-                    states_to_pop: 2,
+                ___state_machine::SimulatedReduce::Reduce {
+                    states_to_pop: 1,
                     nonterminal_produced: 2,
                 }
             }
-            4 => {
-                __state_machine::SimulatedReduce::Reduce {
-                    states_to_pop: 2,
-                    nonterminal_produced: 2,
-                }
-            }
+            4 => ___state_machine::SimulatedReduce::Accept,
             5 => {
-                __state_machine::SimulatedReduce::Reduce {
-                    states_to_pop: 2,
-                    nonterminal_produced: 3,
+                ___state_machine::SimulatedReduce::Reduce {
+                    states_to_pop: 3,
+                    nonterminal_produced: 4,
                 }
             }
-            6 => __state_machine::SimulatedReduce::Accept,
-            _ => panic!("invalid reduction index {__reduce_index}")
+            6 => {
+                ___state_machine::SimulatedReduce::Reduce {
+                    states_to_pop: 1,
+                    nonterminal_produced: 4,
+                }
+            }
+            7 => {
+                ___state_machine::SimulatedReduce::Reduce {
+                    states_to_pop: 3,
+                    nonterminal_produced: 5,
+                }
+            }
+            8 => {
+                ___state_machine::SimulatedReduce::Reduce {
+                    states_to_pop: 1,
+                    nonterminal_produced: 5,
+                }
+            }
+            _ => panic!("invalid reduction index {___reduce_index}")
         }
     }
-    pub struct SParser {
+    pub struct __symbolsParser {
         _priv: (),
     }
 
-    impl Default for SParser { fn default() -> Self { Self::new() } }
-    impl SParser {
-        pub fn new() -> SParser {
-            SParser {
+    impl Default for __symbolsParser { fn default() -> Self { Self::new() } }
+    impl __symbolsParser {
+        pub fn new() -> __symbolsParser {
+            __symbolsParser {
                 _priv: (),
             }
         }
 
         #[allow(dead_code)]
         pub fn parse<
-            __TOKEN: __ToTriple<>,
-            __TOKENS: IntoIterator<Item=__TOKEN>,
+            ___TOKEN: ___ToTriple<>,
+            ___TOKENS: IntoIterator<Item=___TOKEN>,
         >(
             &self,
-            __tokens0: __TOKENS,
-        ) -> Result<Tree, __lalrpop_util::ParseError<i64, Tok, u64>>
+            ___tokens0: ___TOKENS,
+        ) -> Result<Tree, ___lalrpop_util::ParseError<i64, Tok, u64>>
         {
-            let __tokens = __tokens0.into_iter();
-            let mut __tokens = __tokens.map(|t| __ToTriple::to_triple(t));
-            __state_machine::Parser::drive(
-                __StateMachine {
-                    __phantom: core::marker::PhantomData::<()>,
+            let ___tokens = ___tokens0.into_iter();
+            let mut ___tokens = ___tokens.map(|t| ___ToTriple::to_triple(t));
+            ___state_machine::Parser::drive(
+                ___StateMachine {
+                    ___phantom: core::marker::PhantomData::<()>,
                 },
-                __tokens,
+                ___tokens,
             )
         }
     }
-    fn __accepts<
+    fn ___accepts<
     >(
-        __error_state: Option<i8>,
-        __states: &[i8],
-        __opt_integer: Option<usize>,
+        ___error_state: Option<i8>,
+        ___states: &[i8],
+        ___opt_integer: Option<usize>,
         _: core::marker::PhantomData<()>,
     ) -> bool
     {
-        let mut __states = __states.to_vec();
-        __states.extend(__error_state);
+        let mut ___states = ___states.to_vec();
+        ___states.extend(___error_state);
         loop {
-            let mut __states_len = __states.len();
-            let __top = __states[__states_len - 1];
-            let __action = match __opt_integer {
-                None => __EOF_ACTION[__top as usize],
-                Some(__integer) => __action(__top, __integer),
+            let mut ___states_len = ___states.len();
+            let ___top = ___states[___states_len - 1];
+            let ___action = match ___opt_integer {
+                None => ___EOF_ACTION[___top as usize],
+                Some(___integer) => ___action(___top, ___integer),
             };
-            if __action == 0 { return false; }
-            if __action > 0 { return true; }
-            let (__to_pop, __nt) = match __simulate_reduce(-(__action + 1), core::marker::PhantomData::<()>) {
-                __state_machine::SimulatedReduce::Reduce {
+            if ___action == 0 { return false; }
+            if ___action > 0 { return true; }
+            let (___to_pop, ___nt) = match ___simulate_reduce(-(___action + 1), core::marker::PhantomData::<()>) {
+                ___state_machine::SimulatedReduce::Reduce {
                     states_to_pop, nonterminal_produced
                 } => (states_to_pop, nonterminal_produced),
-                __state_machine::SimulatedReduce::Accept => return true,
+                ___state_machine::SimulatedReduce::Accept => return true,
             };
-            __states_len -= __to_pop;
-            __states.truncate(__states_len);
-            let __top = __states[__states_len - 1];
-            let __next_state = __goto(__top, __nt);
-            __states.push(__next_state);
+            ___states_len -= ___to_pop;
+            ___states.truncate(___states_len);
+            let ___top = ___states[___states_len - 1];
+            let ___next_state = ___goto(___top, ___nt);
+            ___states.push(___next_state);
         }
     }
-    fn __reduce<
+    fn ___reduce<
     >(
-        __action: i8,
-        __lookahead_start: Option<&i64>,
-        __states: &mut alloc::vec::Vec<i8>,
-        __symbols: &mut alloc::vec::Vec<(i64,__Symbol<>,i64)>,
+        ___action: i8,
+        ___lookahead_start: Option<&i64>,
+        ___states: &mut alloc::vec::Vec<i8>,
+        ___symbols: &mut alloc::vec::Vec<(i64,___Symbol<>,i64)>,
         _: core::marker::PhantomData<()>,
-    ) -> Option<Result<Tree,__lalrpop_util::ParseError<i64, Tok, u64>>>
+    ) -> Option<Result<Tree,___lalrpop_util::ParseError<i64, Tok, u64>>>
     {
-        let (__pop_states, __nonterminal) = match __action {
+        let (___pop_states, ___nonterminal) = match ___action {
             0 => {
-                __reduce0(__lookahead_start, __symbols, core::marker::PhantomData::<()>)
+                ___reduce0(___lookahead_start, ___symbols, core::marker::PhantomData::<()>)
             }
             1 => {
-                __reduce1(__lookahead_start, __symbols, core::marker::PhantomData::<()>)
+                ___reduce1(___lookahead_start, ___symbols, core::marker::PhantomData::<()>)
             }
             2 => {
-                __reduce2(__lookahead_start, __symbols, core::marker::PhantomData::<()>)
+                ___reduce2(___lookahead_start, ___symbols, core::marker::PhantomData::<()>)
             }
             3 => {
-                __reduce3(__lookahead_start, __symbols, core::marker::PhantomData::<()>)
+                ___reduce3(___lookahead_start, ___symbols, core::marker::PhantomData::<()>)
             }
             4 => {
-                __reduce4(__lookahead_start, __symbols, core::marker::PhantomData::<()>)
+                // _____symbols = __symbols => ActionFn(0);
+                let ___sym0 = ___pop_Variant2(___symbols);
+                let ___start = ___sym0.0.clone();
+                let ___end = ___sym0.2.clone();
+                let ___nt = super::___action0::<>(___sym0);
+                return Some(Ok(___nt));
             }
             5 => {
-                __reduce5(__lookahead_start, __symbols, core::marker::PhantomData::<()>)
+                ___reduce5(___lookahead_start, ___symbols, core::marker::PhantomData::<()>)
             }
             6 => {
-                // __S = S => ActionFn(0);
-                let __sym0 = __pop_Variant2(__symbols);
-                let __start = __sym0.0.clone();
-                let __end = __sym0.2.clone();
-                let __nt = super::__action0::<>(__sym0);
-                return Some(Ok(__nt));
+                ___reduce6(___lookahead_start, ___symbols, core::marker::PhantomData::<()>)
             }
-            _ => panic!("invalid action code {__action}")
+            7 => {
+                ___reduce7(___lookahead_start, ___symbols, core::marker::PhantomData::<()>)
+            }
+            8 => {
+                ___reduce8(___lookahead_start, ___symbols, core::marker::PhantomData::<()>)
+            }
+            _ => panic!("invalid action code {___action}")
         };
-        let __states_len = __states.len();
-        __states.truncate(__states_len - __pop_states);
-        let __state = *__states.last().unwrap();
-        let __next_state = __goto(__state, __nonterminal);
-        __states.push(__next_state);
+        let ___states_len = ___states.len();
+        ___states.truncate(___states_len - ___pop_states);
+        let ___state = *___states.last().unwrap();
+        let ___next_state = ___goto(___state, ___nonterminal);
+        ___states.push(___next_state);
         None
     }
     #[inline(never)]
-    fn __symbol_type_mismatch() -> ! {
+    fn ___symbol_type_mismatch() -> ! {
         panic!("symbol type mismatch")
     }
-    fn __pop_Variant0<
+    fn ___pop_Variant0<
     >(
-        __symbols: &mut alloc::vec::Vec<(i64,__Symbol<>,i64)>
+        ___symbols: &mut alloc::vec::Vec<(i64,___Symbol<>,i64)>
     ) -> (i64, Tok, i64)
      {
-        match __symbols.pop() {
-            Some((__l, __Symbol::Variant0(__v), __r)) => (__l, __v, __r),
-            _ => __symbol_type_mismatch()
+        match ___symbols.pop() {
+            Some((___l, ___Symbol::Variant0(___v), ___r)) => (___l, ___v, ___r),
+            _ => ___symbol_type_mismatch()
         }
     }
-    fn __pop_Variant2<
+    fn ___pop_Variant2<
     >(
-        __symbols: &mut alloc::vec::Vec<(i64,__Symbol<>,i64)>
+        ___symbols: &mut alloc::vec::Vec<(i64,___Symbol<>,i64)>
     ) -> (i64, Tree, i64)
      {
-        match __symbols.pop() {
-            Some((__l, __Symbol::Variant2(__v), __r)) => (__l, __v, __r),
-            _ => __symbol_type_mismatch()
+        match ___symbols.pop() {
+            Some((___l, ___Symbol::Variant2(___v), ___r)) => (___l, ___v, ___r),
+            _ => ___symbol_type_mismatch()
         }
     }
-    fn __pop_Variant1<
+    fn ___pop_Variant1<
     >(
-        __symbols: &mut alloc::vec::Vec<(i64,__Symbol<>,i64)>
+        ___symbols: &mut alloc::vec::Vec<(i64,___Symbol<>,i64)>
     ) -> (i64, i64, i64)
      {
-        match __symbols.pop() {
-            Some((__l, __Symbol::Variant1(__v), __r)) => (__l, __v, __r),
-            _ => __symbol_type_mismatch()
+        match ___symbols.pop() {
+            Some((___l, ___Symbol::Variant1(___v), ___r)) => (___l, ___v, ___r),
+            _ => ___symbol_type_mismatch()
         }
     }
-    fn __reduce0<
+    fn ___reduce0<
     >(
-        __lookahead_start: Option<&i64>,
-        __symbols: &mut alloc::vec::Vec<(i64,__Symbol<>,i64)>,
+        ___lookahead_start: Option<&i64>,
+        ___symbols: &mut alloc::vec::Vec<(i64,___Symbol<>,i64)>,
         _: core::marker::PhantomData<()>,
     ) -> (usize, usize)
     {
-        // @L =  => ActionFn(6);
-        let __start = __lookahead_start.cloned().or_else(|| __symbols.last().map(|s| s.2.clone())).unwrap_or_default();
-        let __end = __start.clone();
-        let __nt = super::__action6::<>(&__start, &__end);
-        __symbols.push((__start, __Symbol::Variant1(__nt), __end));
+        // @L =  => ActionFn(8);
+        let ___start = ___lookahead_start.cloned().or_else(|| ___symbols.last().map(|s| s.2.clone())).unwrap_or_default();
+        let ___end = ___start.clone();
+        let ___nt = super::___action8::<>(&___start, &___end);
+        ___symbols.push((___start, ___Symbol::Variant1(___nt), ___end));
         (0, 0)
     }
-    fn __reduce1<
+    fn ___reduce1<
     >(
-        __lookahead_start: Option<&i64>,
-        __symbols: &mut alloc::vec::Vec<(i64,__Symbol<>,i64)>,
+        ___lookahead_start: Option<&i64>,
+        ___symbols: &mut alloc::vec::Vec<(i64,___Symbol<>,i64)>,
         _: core::marker::PhantomData<()>,
     ) -> (usize, usize)
     {
-        // @R =  => ActionFn(5);
-        let __start = __lookahead_start.cloned().or_else(|| __symbols.last().map(|s| s.2.clone())).unwrap_or_default();
-        let __end = __start.clone();
-        let __nt = super::__action5::<>(&__start, &__end);
-        __symbols.push((__start, __Symbol::Variant1(__nt), __end));
+        // @R =  => ActionFn(7);
+        let ___start = ___lookahead_start.cloned().or_else(|| ___symbols.last().map(|s| s.2.clone())).unwrap_or_default();
+        let ___end = ___start.clone();
+        let ___nt = super::___action7::<>(&___start, &___end);
+        ___symbols.push((___start, ___Symbol::Variant1(___nt), ___end));
         (0, 1)
     }
-    fn __reduce2<
+    fn ___reduce2<
     >(
-        __lookahead_start: Option<&i64>,
-        __symbols: &mut alloc::vec::Vec<(i64,__Symbol<>,i64)>,
+        ___lookahead_start: Option<&i64>,
+        ___symbols: &mut alloc::vec::Vec<(i64,___Symbol<>,i64)>,
         _: core::marker::PhantomData<()>,
     ) -> (usize, usize)
     {
-        // L =  => ActionFn(11);
-        let __start = __lookahead_start.cloned().or_else(|| __symbols.last().map(|s| s.2.clone())).unwrap_or_default();
-        let __end = __start.clone();
-        let __nt = super::__action11::<>(&__start, &__end);
-        __symbols.push((__start, __Symbol::Variant2(__nt), __end));
-        (0, 2)
+        // __Symbol = "(", __symbols, ")" => ActionFn(15);
+        assert!(___symbols.len() >= 3);
+        let ___sym2 = ___pop_Variant0(___symbols);
+        let ___sym1 = ___pop_Variant2(___symbols);
+        let ___sym0 = ___pop_Variant0(___symbols);
+        let ___start = ___sym0.0.clone();
+        let ___end = ___sym2.2.clone();
+        let ___nt = super::___action15::<>(___sym0, ___sym1, ___sym2);
+        ___symbols.push((___start, ___Symbol::Variant2(___nt), ___end));
+        (3, 2)
     }
-    fn __reduce3<
+    fn ___reduce3<
     >(
-        __lookahead_start: Option<&i64>,
-        __symbols: &mut alloc::vec::Vec<(i64,__Symbol<>,i64)>,
+        ___lookahead_start: Option<&i64>,
+        ___symbols: &mut alloc::vec::Vec<(i64,___Symbol<>,i64)>,
         _: core::marker::PhantomData<()>,
     ) -> (usize, usize)
     {
-        // L = L, "a" => ActionFn(12);
-        assert!(__symbols.len() >= 2);
-        let __sym1 = __pop_Variant0(__symbols);
-        let __sym0 = __pop_Variant2(__symbols);
-        let __start = __sym0.0.clone();
-        let __end = __sym1.2.clone();
-        let __nt = super::__action12::<>(__sym0, __sym1);
-        __symbols.push((__start, __Symbol::Variant2(__nt), __end));
-        (2, 2)
+        // __Symbol = "x" => ActionFn(16);
+        let ___sym0 = ___pop_Variant0(___symbols);
+        let ___start = ___sym0.0.clone();
+        let ___end = ___sym0.2.clone();
+        let ___nt = super::___action16::<>(___sym0);
+        ___symbols.push((___start, ___Symbol::Variant2(___nt), ___end));
+        (1, 2)
     }
-    fn __reduce4<
+    fn ___reduce5<
     >(
-        __lookahead_start: Option<&i64>,
-        __symbols: &mut alloc::vec::Vec<(i64,__Symbol<>,i64)>,
+        ___lookahead_start: Option<&i64>,
+        ___symbols: &mut alloc::vec::Vec<(i64,___Symbol<>,i64)>,
         _: core::marker::PhantomData<()>,
     ) -> (usize, usize)
     {
-        // L = L, "," => ActionFn(13);
-        assert!(__symbols.len() >= 2);
-        let __sym1 = __pop_Variant0(__symbols);
-        let __sym0 = __pop_Variant2(__symbols);
-        let __start = __sym0.0.clone();
-        let __end = __sym1.2.clone();
-        let __nt = super::__action13::<>(__sym0, __sym1);
-        __symbols.push((__start, __Symbol::Variant2(__nt), __end));
-        (2, 2)
+        // __symbols = __symbols, "+", __symbols1 => ActionFn(17);
+        assert!(___symbols.len() >= 3);
+        let ___sym2 = ___pop_Variant2(___symbols);
+        let ___sym1 = ___pop_Variant0(___symbols);
+        let ___sym0 = ___pop_Variant2(___symbols);
+        let ___start = ___sym0.0.clone();
+        let ___end = ___sym2.2.clone();
+        let ___nt = super::___action17::<>(___sym0, ___sym1, ___sym2);
+        ___symbols.push((___start, ___Symbol::Variant2(___nt), ___end));
+        (3, 4)
     }
-    fn __reduce5<
+    fn ___reduce6<
     >(
-        __lookahead_start: Option<&i64>,
-        __symbols: &mut alloc::vec::Vec<(i64,__Symbol<>,i64)>,
+        ___lookahead_start: Option<&i64>,
+        ___symbols: &mut alloc::vec::Vec<(i64,___Symbol<>,i64)>,
         _: core::marker::PhantomData<()>,
     ) -> (usize, usize)
     {
-        // S = L, ";" => ActionFn(14);
-        assert!(__symbols.len() >= 2);
-        let __sym1 = __pop_Variant0(__symbols);
-        let __sym0 = __pop_Variant2(__symbols);
-        let __start = __sym0.0.clone();
-        let __end = __sym1.2.clone();
-        let __nt = super::__action14::<>(__sym0, __sym1);
-        __symbols.push((__start, __Symbol::Variant2(__nt), __end));
-        (2, 3)
+        // __symbols = __symbols1 => ActionFn(18);
+        let ___sym0 = ___pop_Variant2(___symbols);
+        let ___start = ___sym0.0.clone();
+        let ___end = ___sym0.2.clone();
+        let ___nt = super::___action18::<>(___sym0);
+        ___symbols.push((___start, ___Symbol::Variant2(___nt), ___end));
+        (1, 4)
+    }
+    fn ___reduce7<
+    >(
+        ___lookahead_start: Option<&i64>,
+        ___symbols: &mut alloc::vec::Vec<(i64,___Symbol<>,i64)>,
+        _: core::marker::PhantomData<()>,
+    ) -> (usize, usize)
+    {
+        // __symbols1 = __symbols1, "*", __Symbol => ActionFn(19);
+        assert!(___symbols.len() >= 3);
+        let ___sym2 = ___pop_Variant2(___symbols);
+        let ___sym1 = ___pop_Variant0(___symbols);
+        let ___sym0 = ___pop_Variant2(___symbols);
+        let ___start = ___sym0.0.clone();
+        let ___end = ___sym2.2.clone();
+        let ___nt = super::___action19::<>(___sym0, ___sym1, ___sym2);
+        ___symbols.push((___start, ___Symbol::Variant2(___nt), ___end));
+        (3, 5)
+    }
+    fn ___reduce8<
+    >(
+        ___lookahead_start: Option<&i64>,
+        ___symbols: &mut alloc::vec::Vec<(i64,___Symbol<>,i64)>,
+        _: core::marker::PhantomData<()>,
+    ) -> (usize, usize)
+    {
+        // __symbols1 = __Symbol => ActionFn(20);
+        let ___sym0 = ___pop_Variant2(___symbols);
+        let ___start = ___sym0.0.clone();
+        let ___end = ___sym0.2.clone();
+        let ___nt = super::___action20::<>(___sym0);
+        ___symbols.push((___start, ___Symbol::Variant2(___nt), ___end));
+        (1, 5)
     }
 }
 #[allow(unused_imports)]
-pub use self::__parse__S::SParser;
+pub use self::___parse_____symbols::__symbolsParser;
 
 #[allow(clippy::too_many_arguments, clippy::needless_lifetimes, clippy::just_underscores_and_digits, clippy::extra_unused_type_parameters)]
-fn __action0<
+fn ___action0<
 >(
-    (_, __0, _): (i64, Tree, i64),
+    (_, ___0, _): (i64, Tree, i64),
 ) -> Tree
 {
-    __0
+    ___0
 }
 
 #[allow(clippy::too_many_arguments, clippy::needless_lifetimes, clippy::just_underscores_and_digits, clippy::extra_unused_type_parameters)]
-fn __action1<
+fn ___action1<
 >(
-    (_, l, _): (i64, i64, i64),
-    (_, c0, _): (i64, Tree, i64),
-    (_, c1, _): (i64, Tok, i64),
-    (_, r, _): (i64, i64, i64),
+    (_, ___lookahead, _): (i64, i64, i64),
+    (_, __3, _): (i64, Tree, i64),
+    (_, __lookahead, _): (i64, Tok, i64),
+    (_, ___, _): (i64, Tree, i64),
+    (_, ___sym0, _): (i64, i64, i64),
 ) -> Tree
 {
-    node("S#0", l, r, vec![Tree::from(c0), Tree::from(c1)])
+    node("__symbols#0", ___lookahead, ___sym0, vec![Tree::from(__3), Tree::from(__lookahead), Tree::from(___)])
 }
 
 #[allow(clippy::too_many_arguments, clippy::needless_lifetimes, clippy::just_underscores_and_digits, clippy::extra_unused_type_parameters)]
-fn __action2<
+fn ___action2<
 >(
-    (_, l, _): (i64, i64, i64),
-    (_, r, _): (i64, i64, i64),
+    (_, ___lookahead, _): (i64, i64, i64),
+    (_, __3, _): (i64, Tree, i64),
+    (_, ___sym0, _): (i64, i64, i64),
 ) -> Tree
 {
-    node("L#0", l, r, vec![])
+    node("__symbols#1", ___lookahead, ___sym0, vec![Tree::from(__3)])
 }
 
 #[allow(clippy::too_many_arguments, clippy::needless_lifetimes, clippy::just_underscores_and_digits, clippy::extra_unused_type_parameters)]
-fn __action3<
+fn ___action3<
 >(
-    (_, l, _): (i64, i64, i64),
-    (_, c0, _): (i64, Tree, i64),
-    (_, c1, _): (i64, Tok, i64),
-    (_, r, _): (i64, i64, i64),
+    (_, ___lookahead, _): (i64, i64, i64),
+    (_, __3, _): (i64, Tree, i64),
+    (_, __lookahead, _): (i64, Tok, i64),
+    (_, ___, _): (i64, Tree, i64),
+    (_, ___sym0, _): (i64, i64, i64),
 ) -> Tree
 {
-    node("L#1", l, r, vec![Tree::from(c0), Tree::from(c1)])
+    node("__symbols1#0", ___lookahead, ___sym0, vec![Tree::from(__3), Tree::from(__lookahead), Tree::from(___)])
 }
 
 #[allow(clippy::too_many_arguments, clippy::needless_lifetimes, clippy::just_underscores_and_digits, clippy::extra_unused_type_parameters)]
-fn __action4<
+fn ___action4<
 >(
-    (_, l, _): (i64, i64, i64),
-    (_, c0, _): (i64, Tree, i64),
-    (_, c1, _): (i64, Tok, i64),
-    (_, r, _): (i64, i64, i64),
+    (_, ___lookahead, _): (i64, i64, i64),
+    (_, __3, _): (i64, Tree, i64),
+    (_, ___sym0, _): (i64, i64, i64),
 ) -> Tree
 {
-    node("L#2", l, r, vec![Tree::from(c0), Tree::from(c1)])
+    node("__symbols1#1", ___lookahead, ___sym0, vec![Tree::from(__3)])
 }
 
-#[allow(clippy::needless_lifetimes)]
-fn __action5<
+#[allow(clippy::too_many_arguments, clippy::needless_lifetimes, clippy::just_underscores_and_digits, clippy::extra_unused_type_parameters)]
+fn ___action5<
 >(
-    __lookbehind: &i64,
-    __lookahead: &i64,
+    (_, ___lookahead, _): (i64, i64, i64),
+    (_, __3, _): (i64, Tok, i64),
+    (_, __lookahead, _): (i64, Tree, i64),
+    (_, ___, _): (i64, Tok, i64),
+    (_, ___sym0, _): (i64, i64, i64),
+) -> Tree
+{
+    node("__Symbol#0", ___lookahead, ___sym0, vec![Tree::from(__3), Tree::from(__lookahead), Tree::from(___)])
+}
+
+#[allow(clippy::too_many_arguments, clippy::needless_lifetimes, clippy::just_underscores_and_digits, clippy::extra_unused_type_parameters)]
+fn ___action6<
+>(
+    (_, ___lookahead, _): (i64, i64, i64),
+    (_, __3, _): (i64, Tok, i64),
+    (_, ___sym0, _): (i64, i64, i64),
+) -> Tree
+{
+    node("__Symbol#1", ___lookahead, ___sym0, vec![Tree::from(__3)])
+}
+
+#[allow(clippy::needless_lifetimes, clippy::clone_on_copy)]
+fn ___action7<
+>(
+    ___lookbehind: &i64,
+    ___lookahead: &i64,
 ) -> i64
 {
-    *__lookbehind
+    ___lookbehind.clone()
 }
 
-#[allow(clippy::needless_lifetimes)]
-fn __action6<
+#[allow(clippy::needless_lifetimes, clippy::clone_on_copy)]
+fn ___action8<
 >(
-    __lookbehind: &i64,
-    __lookahead: &i64,
+    ___lookbehind: &i64,
+    ___lookahead: &i64,
 ) -> i64
 {
-    *__lookahead
+    ___lookahead.clone()
 }
 
 #[allow(clippy::too_many_arguments, clippy::needless_lifetimes,
     clippy::just_underscores_and_digits, clippy::clone_on_copy, clippy::unit_arg)]
-fn __action7<
+fn ___action9<
 >(
-    __0: (i64, i64, i64),
+    ___0: (i64, Tok, i64),
+    ___1: (i64, Tree, i64),
+    ___2: (i64, Tok, i64),
+    ___3: (i64, i64, i64),
 ) -> Tree
 {
-    let __start0 = __0.0.clone();
-    let __end0 = __0.0.clone();
-    let __temp0 = __action6(
-        &__start0,
-        &__end0,
+    let ___start0 = ___0.0.clone();
+    let ___end0 = ___0.0.clone();
+    let ___temp0 = ___action8(
+        &___start0,
+        &___end0,
     );
-    let __temp0 = (__start0, __temp0, __end0);
-    __action2(
-        __temp0,
-        __0,
+    let ___temp0 = (___start0, ___temp0, ___end0);
+    ___action5(
+        ___temp0,
+        ___0,
+        ___1,
+        ___2,
+        ___3,
     )
 }
 
 #[allow(clippy::too_many_arguments, clippy::needless_lifetimes,
     clippy::just_underscores_and_digits, clippy::clone_on_copy, clippy::unit_arg)]
-fn __action8<
+fn ___action10<
 >(
-    __0: (i64, Tree, i64),
-    __1: (i64, Tok, i64),
-    __2: (i64, i64, i64),
+    ___0: (i64, Tok, i64),
+    ___1: (i64, i64, i64),
 ) -> Tree
 {
-    let __start0 = __0.0.clone();
-    let __end0 = __0.0.clone();
-    let __temp0 = __action6(
-        &__start0,
-        &__end0,
+    let ___start0 = ___0.0.clone();
+    let ___end0 = ___0.0.clone();
+    let ___temp0 = ___action8(
+        &___start0,
+        &___end0,
     );
-    let __temp0 = (__start0, __temp0, __end0);
-    __action3(
-        __temp0,
-        __0,
-        __1,
-        __2,
+    let ___temp0 = (___start0, ___temp0, ___end0);
+    ___action6(
+        ___temp0,
+        ___0,
+        ___1,
     )
 }
 
 #[allow(clippy::too_many_arguments, clippy::needless_lifetimes,
     clippy::just_underscores_and_digits, clippy::clone_on_copy, clippy::unit_arg)]
-fn __action9<
+fn ___action11<
 >(
-    __0: (i64, Tree, i64),
-    __1: (i64, Tok, i64),
-    __2: (i64, i64, i64),
+    ___0: (i64, Tree, i64),
+    ___1: (i64, Tok, i64),
+    ___2: (i64, Tree, i64),
+    ___3: (i64, i64, i64),
 ) -> Tree
 {
-    let __start0 = __0.0.clone();
-    let __end0 = __0.0.clone();
-    let __temp0 = __action6(
-        &__start0,
-        &__end0,
+    let ___start0 = ___0.0.clone();
+    let ___end0 = ___0.0.clone();
+    let ___temp0 = ___action8(
+        &___start0,
+        &___end0,
     );
-    let __temp0 = (__start0, __temp0, __end0);
-    __action4(
-        __temp0,
-        __0,
-        __1,
-        __2,
+    let ___temp0 = (___start0, ___temp0, ___end0);
+    ___action1(
+        ___temp0,
+        ___0,
+        ___1,
+        ___2,
+        ___3,
     )
 }
 
 #[allow(clippy::too_many_arguments, clippy::needless_lifetimes,
     clippy::just_underscores_and_digits, clippy::clone_on_copy, clippy::unit_arg)]
-fn __action10<
+fn ___action12<
 >(
-    __0: (i64, Tree, i64),
-    __1: (i64, Tok, i64),
-    __2: (i64, i64, i64),
+    ___0: (i64, Tree, i64),
+    ___1: (i64, i64, i64),
 ) -> Tree
 {
-    let __start0 = __0.0.clone();
-    let __end0 = __0.0.clone();
-    let __temp0 = __action6(
-        &__start0,
-        &__end0,
+    let ___start0 = ___0.0.clone();
+    let ___end0 = ___0.0.clone();
+    let ___temp0 = ___action8(
+        &___start0,
+        &___end0,
     );
-    let __temp0 = (__start0, __temp0, __end0);
-    __action1(
-        __temp0,
-        __0,
-        __1,
-        __2,
+    let ___temp0 = (___start0, ___temp0, ___end0);
+    ___action2(
+        ___temp0,
+        ___0,
+        ___1,
     )
 }
 
 #[allow(clippy::too_many_arguments, clippy::needless_lifetimes,
     clippy::just_underscores_and_digits, clippy::clone_on_copy, clippy::unit_arg)]
-fn __action11<
+fn ___action13<
 >(
-    __lookbehind: &i64,
-    __lookahead: &i64,
+    ___0: (i64, Tree, i64),
+    ___1: (i64, Tok, i64),
+    ___2: (i64, Tree, i64),
+    ___3: (i64, i64, i64),
 ) -> Tree
 {
-    let __start0 = __lookbehind.clone();
-    let __end0 = __lookahead.clone();
-    let __temp0 = __action5(
-        &__start0,
-        &__end0,
+    let ___start0 = ___0.0.clone();
+    let ___end0 = ___0.0.clone();
+    let ___temp0 = ___action8(
+        &___start0,
+        &___end0,
     );
-    let __temp0 = (__start0, __temp0, __end0);
-    __action7(
-        __temp0,
+    let ___temp0 = (___start0, ___temp0, ___end0);
+    ___action3(
+        ___temp0,
+        ___0,
+        ___1,
+        ___2,
+        ___3,
     )
 }
 
 #[allow(clippy::too_many_arguments, clippy::needless_lifetimes,
     clippy::just_underscores_and_digits, clippy::clone_on_copy, clippy::unit_arg)]
-fn __action12<
+fn ___action14<
 >(
-    __0: (i64, Tree, i64),
-    __1: (i64, Tok, i64),
+    ___0: (i64, Tree, i64),
+    ___1: (i64, i64, i64),
 ) -> Tree
 {
-    let __start0 = __1.2.clone();
-    let __end0 = __1.2.clone();
-    let __temp0 = __action5(
-        &__start0,
-        &__end0,
+    let ___start0 = ___0.0.clone();
+    let ___end0 = ___0.0.clone();
+    let ___temp0 = ___action8(
+        &___start0,
+        &___end0,
     );
-    let __temp0 = (__start0, __temp0, __end0);
-    __action8(
-        __0,
-        __1,
-        __temp0,
+    let ___temp0 = (___start0, ___temp0, ___end0);
+    ___action4(
+        ___temp0,
+        ___0,
+        ___1,
     )
 }
 
 #[allow(clippy::too_many_arguments, clippy::needless_lifetimes,
     clippy::just_underscores_and_digits, clippy::clone_on_copy, clippy::unit_arg)]
-fn __action13<
+fn ___action15<
 >(
-    __0: (i64, Tree, i64),
-    __1: (i64, Tok, i64),
+    ___0: (i64, Tok, i64),
+    ___1: (i64, Tree, i64),
+    ___2: (i64, Tok, i64),
 ) -> Tree
 {
-    let __start0 = __1.2.clone();
-    let __end0 = __1.2.clone();
-    let __temp0 = __action5(
-        &__start0,
-        &__end0,
+    let ___start0 = ___2.2.clone();
+    let ___end0 = ___2.2.clone();
+    let ___temp0 = ___action7(
+        &___start0,
+        &___end0,
     );
-    let __temp0 = (__start0, __temp0, __end0);
-    __action9(
-        __0,
-        __1,
-        __temp0,
+    let ___temp0 = (___start0, ___temp0, ___end0);
+    ___action9(
+        ___0,
+        ___1,
+        ___2,
+        ___temp0,
     )
 }
 
 #[allow(clippy::too_many_arguments, clippy::needless_lifetimes,
     clippy::just_underscores_and_digits, clippy::clone_on_copy, clippy::unit_arg)]
-fn __action14<
+fn ___action16<
 >(
-    __0: (i64, Tree, i64),
-    __1: (i64, Tok, i64),
+    ___0: (i64, Tok, i64),
 ) -> Tree
 {
-    let __start0 = __1.2.clone();
-    let __end0 = __1.2.clone();
-    let __temp0 = __action5(
-        &__start0,
-        &__end0,
+    let ___start0 = ___0.2.clone();
+    let ___end0 = ___0.2.clone();
+    let ___temp0 = ___action7(
+        &___start0,
+        &___end0,
     );
-    let __temp0 = (__start0, __temp0, __end0);
-    __action10(
-        __0,
-        __1,
-        __temp0,
+    let ___temp0 = (___start0, ___temp0, ___end0);
+    ___action10(
+        ___0,
+        ___temp0,
+    )
+}
+
+#[allow(clippy::too_many_arguments, clippy::needless_lifetimes,
+    clippy::just_underscores_and_digits, clippy::clone_on_copy, clippy::unit_arg)]
+fn ___action17<
+>(
+    ___0: (i64, Tree, i64),
+    ___1: (i64, Tok, i64),
+    ___2: (i64, Tree, i64),
+) -> Tree
+{
+    let ___start0 = ___2.2.clone();
+    let ___end0 = ___2.2.clone();
+    let ___temp0 = ___action7(
+        &___start0,
+        &___end0,
+    );
+    let ___temp0 = (___start0, ___temp0, ___end0);
+    ___action11(
+        ___0,
+        ___1,
+        ___2,
+        ___temp0,
+    )
+}
+
+#[allow(clippy::too_many_arguments, clippy::needless_lifetimes,
+    clippy::just_underscores_and_digits, clippy::clone_on_copy, clippy::unit_arg)]
+fn ___action18<
+>(
+    ___0: (i64, Tree, i64),
+) -> Tree
+{
+    let ___start0 = ___0.2.clone();
+    let ___end0 = ___0.2.clone();
+    let ___temp0 = ___action7(
+        &___start0,
+        &___end0,
+    );
+    let ___temp0 = (___start0, ___temp0, ___end0);
+    ___action12(
+        ___0,
+        ___temp0,
+    )
+}
+
+#[allow(clippy::too_many_arguments, clippy::needless_lifetimes,
+    clippy::just_underscores_and_digits, clippy::clone_on_copy, clippy::unit_arg)]
+fn ___action19<
+>(
+    ___0: (i64, Tree, i64),
+    ___1: (i64, Tok, i64),
+    ___2: (i64, Tree, i64),
+) -> Tree
+{
+    let ___start0 = ___2.2.clone();
+    let ___end0 = ___2.2.clone();
+    let ___temp0 = ___action7(
+        &___start0,
+        &___end0,
+    );
+    let ___temp0 = (___start0, ___temp0, ___end0);
+    ___action13(
+        ___0,
+        ___1,
+        ___2,
+        ___temp0,
+    )
+}
+
+#[allow(clippy::too_many_arguments, clippy::needless_lifetimes,
+    clippy::just_underscores_and_digits, clippy::clone_on_copy, clippy::unit_arg)]
+fn ___action20<
+>(
+    ___0: (i64, Tree, i64),
+) -> Tree
+{
+    let ___start0 = ___0.2.clone();
+    let ___end0 = ___0.2.clone();
+    let ___temp0 = ___action7(
+        &___start0,
+        &___end0,
+    );
+    let ___temp0 = (___start0, ___temp0, ___end0);
+    ___action14(
+        ___0,
+        ___temp0,
     )
 }
 
 #[allow(clippy::type_complexity, dead_code)]
-pub trait __ToTriple<>
+pub trait ___ToTriple<>
 {
-    fn to_triple(self) -> Result<(i64,Tok,i64), __lalrpop_util::ParseError<i64, Tok, u64>>;
+    fn to_triple(self) -> Result<(i64,Tok,i64), ___lalrpop_util::ParseError<i64, Tok, u64>>;
 }
 
-impl<> __ToTriple<> for (i64, Tok, i64)
+impl<> ___ToTriple<> for (i64, Tok, i64)
 {
-    fn to_triple(self) -> Result<(i64,Tok,i64), __lalrpop_util::ParseError<i64, Tok, u64>> {
+    fn to_triple(self) -> Result<(i64,Tok,i64), ___lalrpop_util::ParseError<i64, Tok, u64>> {
         Ok(self)
     }
 }
-impl<> __ToTriple<> for Result<(i64, Tok, i64), u64>
+impl<> ___ToTriple<> for Result<(i64, Tok, i64), u64>
 {
-    fn to_triple(self) -> Result<(i64,Tok,i64), __lalrpop_util::ParseError<i64, Tok, u64>> {
-        self.map_err(|error| __lalrpop_util::ParseError::User { error })
+    fn to_triple(self) -> Result<(i64,Tok,i64), ___lalrpop_util::ParseError<i64, Tok, u64>> {
+        self.map_err(|error| ___lalrpop_util::ParseError::User { error })
     }
 }
